@@ -173,7 +173,56 @@ def drive_cpp(wdir, em, model, out_path, header_text, compilers=(("g++", "-std=c
     return dict(calls=calls, failures=failures, roots_run=ran, done=True, wrappers=[], sizes=sizes)
 
 
+def resolve_generic_names(em, header_text):
+    """roots the emulated cbindgen output only contains in context-generic (`*_Context`) form exist in the processed header under the names the
+    tool gave them.  Groups keep cbindgen's own mangling; for single-trait objects only the `<Trait>Base_<instance>_<context>` typedef is a
+    public name, the structure behind it is looked up through that typedef.  Returns the roots the processed header lacks."""
+    import emit as _emit
+    missing = []
+    for r in em.roots:
+        if r.get("emitted", True):
+            continue
+        if r["kind"] == "group":
+            if not re.search(r"typedef struct %s \{" % re.escape(r["struct"]), header_text):
+                missing.append(r)
+            continue
+        alias = "%sBase_%s" % (r["name"], _emit.mangle_raw(_emit.INST[r["inst"]]).rstrip("_") + "_____" + _emit.ctx_c(r["ctx"]))
+        m = re.search(r"typedef struct (\S+) %s;" % re.escape(alias), header_text)
+        b = m and re.search(r"typedef struct %s \{\n\s*const struct (\S+) \*vtbl;\n\s*struct (\S+) container;\n\} " % re.escape(m.group(1)), header_text)
+        if not b:
+            missing.append(r)
+            continue
+        r["struct"], r["container"], r["vtables"] = m.group(1), b.group(2), [(r["name"], "vtbl", b.group(1))]
+    return missing
+
+
+def judge_members(em, model, header_text):
+    """member list of every object's container in the processed C header against the Rust definition: instance, context unless it is the
+    zero-sized NoContext, then one temporary-storage member per trait that has borrowed wrapped returns.  Works on headers that do not compile."""
+    resolve_generic_names(em, header_text)
+    viol, n = [], 0
+    for r in em.roots:
+        m = re.search(r"typedef struct %s \{\n(.*?)\n\} %s;" % (re.escape(r["container"]), re.escape(r["container"])), header_text, re.S)
+        if not m:
+            continue
+        names = [re.search(r"(\w+)$", d.strip()).group(1) for d in m.group(1).split(";") if re.search(r"(\w+)$", d.strip())]
+        want = ["instance"] + (["context"] if r["ctx"] == "Arc" else [])
+        if r["kind"] == "group":
+            mand, opt = model.groups[r["name"]]
+            want += ["ret_tmp_" + t.lower() for t in sorted(mand) + sorted(opt) if model.traits[t].rettmp_fields]
+        elif model.traits[r["name"]].rettmp_fields:
+            want += ["ret_tmp"]
+        n += 1
+        if names != want:
+            viol.append(("container-members", "%s %s (%s, %s): struct %s has members %s, the Rust container has %s" % (r["kind"], r["name"], r["inst"], r["ctx"] or "NoContext", r["container"], names, want)))
+    return viol, n
+
+
 def drive(wdir, em, model, out_path, header_text):
+    missing = resolve_generic_names(em, header_text)
+    if missing:
+        return dict(build_error="the processed header has no structure for: " + ", ".join("%s %s (%s, %s)" % (r["kind"], r["name"], r["inst"], r["ctx"] or "NoContext") for r in missing),
+                    wrappers=[], calls=[], missing=missing)
     src, wrappers = driver.gen_driver(os.path.basename(out_path), em, model, header_text)
     dp = os.path.join(wdir, "driver.c")
     with open(dp, "w") as f:
